@@ -38,9 +38,10 @@
  */
 int vnacal_set_dprecision(vnacal_t *vcp, int precision)
 {
-    if (precision < 1) {
+    if (precision < 1 || precision > VNACAL_MAX_PRECISION) {
 	_vnacal_error(vcp, VNAERR_USAGE,
-		"vnacal_set_dprecision: precision must be at least 1");
+		"vnacal_set_dprecision: precision must be between 1 and %d",
+		VNACAL_MAX_PRECISION);
 	return -1;
     }
     vcp->vc_dprecision = precision;
